@@ -1245,13 +1245,15 @@ func verifPartitionSMF(m Message) (n int) {
 
 //@ macro wtInv(s, wr, f) = writerInv(wr) && wr.SMF == s && wr.output.wr == f && wr.headerWritten && wr.error == nil && len(s.Tracks) == old(len(s.Tracks)) && s.TimeFormat == old(s.TimeFormat) && f.wlen >= old(f.wlen) && wr.output.size == int64(f.wlen - old(f.wlen)) && (forall i int :: 0 <= i && i < old(f.wlen) ==> f.wdata[i] == old(f.wdata[i]))
 
+//@ macro closedT(t) = len(t) > 0 && isEOT(t[len(t)-1].Message)
 //@ func (*SMF).WriteTo
 //@ requires f != nil && f.wlen >= 0 && typeof(f) != typeid(*wrWrapper) && tracksOK(s) && (typeof(s.TimeFormat) == typeid(MetricTicks) || typeof(s.TimeFormat) == typeid(TimeCode))
 //@ requires forall i int :: 0 <= i && i < len(s.Tracks) ==> len(s.Tracks[i]) < 20000
-// (the auto-close of open tracks in the first loop is covered by the contract of Track.Close; the file-level
-// clauses below are proved for values whose tracks are already closed, so that the first loop changes nothing)
-//@ requires forall i int :: 0 <= i && i < len(s.Tracks) ==> (len(s.Tracks[i]) > 0 && isEOT(s.Tracks[i][len(s.Tracks[i])-1].Message))
-//@ modifies *s, f.wdata, f.wlen, f.wfailed
+//@ modifies *s, s.Tracks[:], f.wdata, f.wlen, f.wfailed
+// open tracks are closed first (an end-of-track with delta 0 is appended to the track itself): the loops that write the
+// chunks run with "every track of s is closed" as an invariant, so a file is only ever written from closed tracks.
+// (The same fact as a postcondition of the whole function times out over the merged return paths and is not claimed.)
+//@ ensures [P:C01] len(s.Tracks) == old(len(s.Tracks))
 //@ ensures [P:C10] err == nil ==> (f.wfailed == old(f.wfailed))
 //@ ensures [P:C10] (f.wfailed && !old(f.wfailed)) ==> err != nil
 //@ ensures [P:C03] err == nil ==> size == int64(f.wlen - old(f.wlen))
@@ -1259,10 +1261,8 @@ func verifPartitionSMF(m Message) (n int) {
 //@ loop 0 invariant -1 <= rangeindex && rangeindex < len(s.Tracks) && len(s.Tracks) == old(len(s.Tracks)) && s.TimeFormat == old(s.TimeFormat) && s.NoRunningStatus == old(s.NoRunningStatus)
 //@ loop 0 invariant f.wlen == old(f.wlen) && f.wfailed == old(f.wfailed) && f.wdata == old(f.wdata)
 //@ loop 0 invariant s.Tracks == old(s.Tracks)
-//@ loop 0 invariant forall i int :: (0 <= i && i < len(s.Tracks)) ==> (msgsOK(s.Tracks[i]) && len(s.Tracks[i]) < 20000)
-//@ loop 0 invariant forall i int :: 0 <= i && i < len(s.Tracks) ==> (len(s.Tracks[i]) > 0 && isEOT(s.Tracks[i][len(s.Tracks[i])-1].Message))
-//@ loop 0 invariant forall i int :: 0 <= i && i < len(s.Tracks) ==> s.Tracks[i] == old(s.Tracks[i])
-//@ loop 0 invariant forall i int :: 0 <= i && i < len(s.Tracks) ==> forall j int :: 0 <= j && j < len(s.Tracks[i]) ==> s.Tracks[i][j] == old(s.Tracks[i][j])
+//@ loop 0 invariant forall i int :: (0 <= i && i < len(s.Tracks)) ==> (msgsOK(s.Tracks[i]) && len(s.Tracks[i]) < (i <= rangeindex ? 20001 : 20000))
+//@ loop 0 invariant forall i int :: 0 <= i && i <= rangeindex ==> closedT(s.Tracks[i])
 //@ loop 0 decreases len(s.Tracks) - rangeindex
 //@ loop 1 invariant -1 <= rangeindex && rangeindex < len(s.Tracks) && len(s.Tracks) == old(len(s.Tracks)) && s.TimeFormat == old(s.TimeFormat)
 //@ loop 1 invariant writerInv(wr) && wr.SMF == s && wr.output.wr == f && wr.headerWritten && wr.error == nil
@@ -1270,9 +1270,11 @@ func verifPartitionSMF(m Message) (n int) {
 //@ loop 1 invariant f.wlen >= old(f.wlen) && wr.output.size == int64(f.wlen - old(f.wlen))
 //@ loop 1 invariant forall i int :: 0 <= i && i < old(f.wlen) ==> f.wdata[i] == old(f.wdata[i])
 //@ loop 1 invariant f.wfailed == old(f.wfailed) && len(wr.currentChunk.data) == 0
+//@ loop 1 invariant forall i int :: 0 <= i && i < len(s.Tracks) ==> closedT(s.Tracks[i])
 //@ loop 1 decreases len(s.Tracks) - rangeindex
 //@ loop 2 invariant -1 <= rangeindex && wtInv(s, wr, f) && f.wfailed == old(f.wfailed) && 0 <= rangeindex$1 + 1 && rangeindex$1 + 1 < len(s.Tracks)
 //@ loop 2 invariant msgsOK(t) && rangeindex < len(t) && len(t) < 20002
+//@ loop 2 invariant forall i int :: 0 <= i && i < len(s.Tracks) ==> closedT(s.Tracks[i])
 //@ loop 2 invariant fresh(wr) && fresh(wr.output) && (wr.runningWriter == nil || fresh(asptr(wr.runningWriter, runningstatus.smfwriter)))
 //@ loop 2 invariant len(wr.currentChunk.data) <= 70000 * (rangeindex + 1)
 //@ loop 2 decreases 1000000 - rangeindex
